@@ -48,7 +48,7 @@ def maybe_multi(rng, fn):
 
 def gen_cases(tier, seed):
     rng = random.Random(seed * 236887691 + 16)
-    n = 3000 if tier == 'quick' else 50000
+    n = 3000 if tier == 'quick' else 400000
     cases = []
     helpers = ['wifi', 'mecard', 'vcard', 'geo', 'email', 'epc', 'epc', 'epc-bad']
     for i in range(n):
